@@ -10,6 +10,7 @@ import (
 	"maps"
 	"os"
 	"path/filepath"
+	"runtime"
 	"slices"
 	"sync"
 
@@ -66,6 +67,10 @@ func c19Cleanup() {
 		_ = os.RemoveAll(c19Dir)
 		c19Dir = ""
 		c19Wallets = nil
+		c19Worlds = map[string]*c19World{} // they name the removed wallet files
+	}
+	if os.Getenv("VERIF_C19_DEBUG") != "" {
+		fmt.Println("c19: goroutines at cleanup:", runtime.NumGoroutine())
 	}
 }
 
